@@ -42,9 +42,12 @@ class Ctx:
         self.failures.append({"kind": kind, "case": case, "detail": detail})
 
     # --- running ---------------------------------------------------------------------
-    def impl(self, module, cases, timeout=10, hashseeds=None):
+    def impl(self, module, cases, timeout=10, hashseeds=None, retry=True):
         t = time.time()
-        r = common.run_impl(module, cases, hashseeds or self.hashseeds, per_case_timeout=timeout)
+        r = common.run_impl(module, cases, hashseeds or self.hashseeds, per_case_timeout=timeout, retry_done=not retry)
+        n_retry = sum(1 for o in r if isinstance(o, dict) and o.get("_retried_after_timeout"))
+        if n_retry:
+            self.dist["impl cases finished only on the enlarged retry budget"] += n_retry
         self.dist["t_impl_s"] += round(time.time() - t, 1)
         return r
 
